@@ -20,7 +20,8 @@
 (* field is optional (tested with Has).  Conventions that differ from the   *)
 (* JSON text, undone by the harness' concretiser (harness/abs/concretize.go)*)
 (*   type                 always a sequence of type names                   *)
-(*   minimum, maximum, multipleOf     Int in quarters   (or a "big" record) *)
+(*   minimum, maximum                 a "num" or "big" numeral record        *)
+(*   multipleOf                       Int in quarters                         *)
 (*   exclusiveMinimum/Maximum         [k |-> "b", b |-> BOOLEAN] or         *)
 (*                                    [k |-> "n", h |-> Int]                *)
 (*   pattern              a pattern id, see PatMatch                        *)
@@ -130,7 +131,7 @@ BigKey(x) == IF x.t = "big" THEN <<x.sg * x.e, x.o>> ELSE <<0, x.h>>  \* e >= 7 
 NumLT(x, y) == LET a == BigKey(x) b == BigKey(y) IN a[1] < b[1] \/ (a[1] = b[1] /\ a[2] < b[2])
 NumEQ(x, y) == BigKey(x) = BigKey(y)
 NumLE(x, y) == NumLT(x, y) \/ NumEQ(x, y)
-AsNum(v)    == IF v \in Int THEN JNum(v) ELSE v         \* schema constants may be plain quarter counts
+AsNum(v)    == v     \* schema constants minimum/maximum/exclusive* are numeral records ("num" or "big")
 U == 4
 IsIntegral(x) == IF x.t = "big" THEN TRUE ELSE x.h % U = 0
 
